@@ -44,6 +44,16 @@ impl Wk {
         Wk::spawn("E", &Setup { jail: JAIL.into(), deny: vec!["openat2".into()], ..Default::default() })
     }
 
+    /// What a container runtime with a seccomp profile older than these system calls does: they fail with EPERM, not ENOSYS.
+    pub fn old_profile_deny() -> Vec<String> {
+        ["openat2=EPERM", "fsopen=EPERM", "fsconfig=EPERM", "fsmount=EPERM", "open_tree=EPERM", "faccessat2=EPERM"].iter().map(|s| s.to_string()).collect()
+    }
+    /// The "kernel without openat2" worker of work item `idx`: every third item models the absence the way an old seccomp profile
+    /// produces it (EPERM for openat2 and the new mount API) instead of ENOSYS.
+    pub fn emulated_for(idx: usize) -> MResult<Wk> {
+        if idx % 3 == 1 { Wk::spawn("E", &Setup { jail: JAIL.into(), deny: Wk::old_profile_deny(), ..Default::default() }) } else { Wk::emulated() }
+    }
+
     pub fn call(&mut self, ops: Vec<Op>) -> MResult<Vec<Obs>> {
         let n = ops.len();
         self.send(ops)?;
